@@ -2,10 +2,14 @@ package main
 
 import (
 	"fmt"
+	"reflect"
+	"regexp"
 	"strings"
 	"time"
 
 	"go.flow.arcalot.io/engine/internal/verif/vrt"
+	"go.flow.arcalot.io/engine/workflow"
+	"go.flow.arcalot.io/pluginsdk/schema"
 )
 
 func msDur(ms int64) time.Duration { return time.Duration(ms) * time.Millisecond }
@@ -231,4 +235,402 @@ func oracleC07(s *Scenario, x *vrt.Exec, o *Obs) []vrt.Violation {
 		out = append(out, viol(s, "evaluation-failure-not-reported", o.ID, fmt.Sprintf("an expression cannot be evaluated (%s) but the run returned output %s", s.Ref.EvalErrs[0], o.ID)))
 	}
 	return out
+}
+
+// ---------------------------------------------------------------------------------------
+// C02: stage inputs arrive only after their references were produced, with exactly those values
+
+func (s *Scenario) step(id string) *Step {
+	for i := range s.Prog.Steps {
+		if s.Prog.Steps[i].ID == id {
+			return &s.Prog.Steps[i]
+		}
+	}
+	return nil
+}
+
+// stageNode is the program text that feeds one stage of a step.
+func stageNode(st *Step, stage string) (Node, bool) {
+	switch stage {
+	case "starting":
+		return Obj{Fields: []Field{{"input", st.Input}, {"wait_for", st.WaitFor}, {"closure_wait_timeout", st.ClosureMS}}}, true
+	case "deploy":
+		return Obj{Fields: []Field{{"deploy", st.Deploy}}}, true
+	case "enabling":
+		return Obj{Fields: []Field{{"enabled", st.Enabled}}}, true
+	case "cancelled":
+		return Obj{Fields: []Field{{"stop_if", st.StopIf}}}, true
+	case "execute":
+		return Obj{Fields: []Field{{"items", st.Items}, {"parallelism", st.Parallelism}, {"wait_for", st.WaitFor}}}, true
+	}
+	return nil, false
+}
+
+func setStrings(set []any) string {
+	var alts []string
+	for _, a := range set {
+		alts = append(alts, canonStr(a))
+	}
+	return strings.Join(alts, " | ")
+}
+
+func oracleC02(s *Scenario, x *vrt.Exec, o *Obs) []vrt.Violation {
+	var out []vrt.Violation
+	if o.W == nil || x.Outcome().Panic != nil {
+		return nil
+	}
+	for _, e := range o.W.Ledger {
+		switch e.Kind {
+		case "stage-input":
+			st := s.step(e.Step)
+			if st == nil {
+				continue
+			}
+			stage, _ := e.Data.(string)
+			node, ok := stageNode(st, stage)
+			if !ok {
+				continue
+			}
+			tv := traceUpTo(s, o.W, e.Seq)
+			n := tv.need(node)
+			if n.st != Produced {
+				out = append(out, viol(s, "input-before-dependencies", e.Step+"."+stage, fmt.Sprintf("stage %s of step %s received input although the values it refers to were not all produced (status %s)\n%s", stage, e.Step, n.st, o.W.LedgerString())))
+				continue
+			}
+			set, err := tv.evalSet(node)
+			if err != nil {
+				if len(s.Ref.EvalErrs) == 0 {
+					out = append(out, viol(s, "input-not-evaluable", e.Step+"."+stage, fmt.Sprintf("stage %s of step %s received input but its expressions do not evaluate over the produced values: %v", stage, e.Step, err)))
+				}
+				continue
+			}
+			if got := canon(e.Data2); !inSet(set, got) {
+				out = append(out, viol(s, "wrong-stage-input", e.Step+"."+stage, fmt.Sprintf("stage %s of step %s received %s; evaluating its expressions over what the producers emitted gives %s", stage, e.Step, canonStr(got), setStrings(set))))
+			}
+		case "exec-start":
+			st := s.step(e.Step)
+			if st == nil || st.Kind == "foreach" {
+				continue
+			}
+			tv := traceUpTo(s, o.W, e.Seq)
+			node := Obj{Fields: []Field{{"input", st.Input}, {"wait_for", st.WaitFor}}}
+			if n := tv.need(node); n.st != Produced {
+				out = append(out, viol(s, "executed-before-dependencies", e.Step, fmt.Sprintf("plugin of step %s was executed although its input/wait_for references were not all produced (status %s)", e.Step, n.st)))
+				continue
+			}
+			set, err := tv.evalSet(st.Input)
+			if err == nil && !inSet(set, canon(e.Data)) {
+				out = append(out, viol(s, "wrong-plugin-input", e.Step, fmt.Sprintf("plugin of step %s received %s; its input expressions over the produced values give %s", e.Step, canonStr(e.Data), setStrings(set))))
+			}
+		case "deploy-start":
+			if e.Phase != "run" {
+				continue
+			}
+			st := s.step(e.Step)
+			if st == nil || st.Deploy == nil {
+				continue
+			}
+			tv := traceUpTo(s, o.W, e.Seq)
+			if n := tv.need(st.Deploy); n.st != Produced {
+				out = append(out, viol(s, "deployed-before-dependencies", e.Step, "deployment started before its deploy expression's references were produced"))
+				continue
+			}
+			if set, err := tv.evalSet(st.Deploy); err == nil && len(set) > 0 {
+				if m, ok := set[0].(map[string]any); ok {
+					want, _ := m["tag"].(string)
+					if got, _ := e.Data.(string); got != want {
+						out = append(out, viol(s, "wrong-deploy-config", e.Step, fmt.Sprintf("step %s was deployed with tag %q, its deploy expression evaluates to %q", e.Step, got, want)))
+					}
+				}
+			}
+		}
+	}
+	return out
+}
+
+// ---------------------------------------------------------------------------------------
+// C04: plugin code runs only if prerequisites were produced, the step is enabled, and it was not stopped first
+
+func oracleC04(s *Scenario, x *vrt.Exec, o *Obs) []vrt.Violation {
+	var out []vrt.Violation
+	if o.W == nil || x.Outcome().Panic != nil {
+		return nil
+	}
+	type seen struct{ starting, stopBeforeStart, enabledFalse, enablingSeen bool }
+	st := map[string]*seen{}
+	get := func(id string) *seen {
+		if st[id] == nil {
+			st[id] = &seen{}
+		}
+		return st[id]
+	}
+	for _, e := range o.W.Ledger {
+		step := s.step(e.Step)
+		if step == nil {
+			continue
+		}
+		switch e.Kind {
+		case "stage-input":
+			stage, _ := e.Data.(string)
+			in, _ := canon(e.Data2).(map[string]any)
+			switch stage {
+			case "starting":
+				get(e.Step).starting = true
+			case "cancelled":
+				if v, ok := in["stop_if"]; ok && truthy(v) && !get(e.Step).starting {
+					get(e.Step).stopBeforeStart = true
+				}
+			case "enabling":
+				get(e.Step).enablingSeen = true
+				if v, ok := in["enabled"]; ok && v != true {
+					get(e.Step).enabledFalse = true
+				}
+			}
+		case "exec-start":
+			if step.Kind == "foreach" {
+				continue
+			}
+			g := get(e.Step)
+			if !g.starting {
+				out = append(out, viol(s, "executed-without-start-input", e.Step, "plugin executed although the step never received its start input"))
+			}
+			if g.enabledFalse {
+				out = append(out, viol(s, "executed-although-disabled", e.Step, "plugin executed although its enabled condition evaluated to false"))
+			}
+			if !g.enablingSeen {
+				out = append(out, viol(s, "executed-before-enable-decision", e.Step, "plugin executed before the enabled condition was delivered"))
+			}
+			if g.stopBeforeStart {
+				out = append(out, viol(s, "executed-although-stopped-first", e.Step, fmt.Sprintf("the stop condition of step %s was delivered before its start input, yet the plugin was executed\n%s", e.Step, o.W.LedgerString())))
+			}
+			tv := traceUpTo(s, o.W, e.Seq)
+			node := Obj{Fields: []Field{{"input", step.Input}, {"wait_for", step.WaitFor}, {"enabled", step.Enabled}}}
+			if n := tv.need(node); n.st != Produced {
+				out = append(out, viol(s, "executed-although-prerequisite-missing", e.Step, fmt.Sprintf("plugin of step %s executed although a prerequisite was not produced (status %s)", e.Step, n.st)))
+			}
+			if s.Ref.Unique {
+				if oc := s.Ref.Outcome[e.Step]; oc != nil && !oc.MayRun {
+					out = append(out, viol(s, "executed-against-reference", e.Step+"/"+oc.What, fmt.Sprintf("plugin of step %s executed, but by the workflow's meaning it must not (%s)", e.Step, oc.What)))
+				}
+			}
+		case "notify-complete":
+			n, _ := asNotif(e.Data)
+			if n.Prev == "disabled" && n.OutputID == "output" {
+				m, _ := canon(n.Output).(map[string]any)
+				if _, ok := m["message"].(string); !ok || len(m) != 1 {
+					out = append(out, viol(s, "bad-disabled-output", e.Step, "a disabled step must report {message: string}, got "+canonStr(n.Output)))
+				}
+			}
+		}
+	}
+	// a disabled step reports its disabled output
+	if o.Returned && s.Ref.Unique && !o.Cancelled {
+		for id, oc := range s.Ref.Outcome {
+			if oc.What == "disabled" {
+				tv := traceUpTo(s, o.W, len(o.W.Ledger))
+				if tv.St[key(id, "disabled", "output")] != Produced && s.Ref.ResultID != "" && o.Err == nil {
+					// only required when the run did not end before the step got that far
+					if needsDisabled(s, id) {
+						out = append(out, viol(s, "disabled-output-missing", id, "step "+id+" is disabled but never reported its disabled output"))
+					}
+				}
+			}
+		}
+	}
+	return out
+}
+
+// needsDisabled reports whether the returned output depends on the disabled output of the step.
+func needsDisabled(s *Scenario, id string) bool {
+	for _, od := range s.Prog.Outputs {
+		if od.ID != s.Ref.ResultID {
+			continue
+		}
+		for _, r := range allRefs(od.Val) {
+			if r.Step == id && (r.Stage == "disabled" || r.Stage == "outputs") {
+				return true
+			}
+		}
+	}
+	return false
+}
+
+// ---------------------------------------------------------------------------------------
+// C08: every value handed over conforms to the schema declared for it
+
+type stageSchemas struct {
+	in   schema.Type
+	outs map[string]*schema.StepOutputSchema
+}
+
+func (s *Scenario) schemas() map[string]map[string]stageSchemas {
+	if s.sch != nil {
+		return s.sch
+	}
+	s.sch = map[string]map[string]stageSchemas{}
+	pw, err := s.prepared()
+	if err != nil {
+		return s.sch
+	}
+	for _, n := range pw.DAG().ListNodes() {
+		it := n.Item()
+		if it.Kind != workflow.DAGItemKindStepStage || it.Provider == nil {
+			continue
+		}
+		if _, done := s.sch[it.StepID]; done {
+			continue
+		}
+		st := s.step(it.StepID)
+		if st == nil {
+			continue
+		}
+		ps := st.PluginStep
+		if ps == "" {
+			ps = "run"
+		}
+		lc, err := it.Provider.Lifecycle(map[string]any{"step": ps})
+		if err != nil {
+			continue
+		}
+		m := map[string]stageSchemas{}
+		for _, stg := range lc.Stages {
+			ss := stageSchemas{outs: stg.Outputs}
+			if len(stg.InputSchema) > 0 {
+				ss.in = schema.NewObjectSchema("input", stg.InputSchema)
+			}
+			m[stg.ID] = ss
+		}
+		s.sch[it.StepID] = m
+	}
+	return s.sch
+}
+
+// plainData reports the first place where a value is not in serialised (generic) form.
+func plainData(v any, path string) string {
+	switch x := v.(type) {
+	case nil, bool, string, int, int8, int16, int32, int64, uint, uint8, uint16, uint32, uint64, float32, float64:
+		return ""
+	case map[string]any:
+		for k, e := range x {
+			if p := plainData(e, path+"."+k); p != "" {
+				return p
+			}
+		}
+		return ""
+	case map[any]any:
+		for k, e := range x {
+			if p := plainData(e, fmt.Sprintf("%s.%v", path, k)); p != "" {
+				return p
+			}
+		}
+		return ""
+	case []any:
+		for i, e := range x {
+			if p := plainData(e, fmt.Sprintf("%s[%d]", path, i)); p != "" {
+				return p
+			}
+		}
+		return ""
+	}
+	rv := reflect.ValueOf(v)
+	switch rv.Kind() {
+	case reflect.Map:
+		for _, k := range rv.MapKeys() {
+			if p := plainData(rv.MapIndex(k).Interface(), fmt.Sprintf("%s.%v", path, k.Interface())); p != "" {
+				return p
+			}
+		}
+		return ""
+	case reflect.Slice:
+		for i := 0; i < rv.Len(); i++ {
+			if p := plainData(rv.Index(i).Interface(), fmt.Sprintf("%s[%d]", path, i)); p != "" {
+				return p
+			}
+		}
+		return ""
+	}
+	return fmt.Sprintf("%s is a %T", path, v)
+}
+
+func oracleC08(s *Scenario, x *vrt.Exec, o *Obs) []vrt.Violation {
+	var out []vrt.Violation
+	if o.W == nil || x.Outcome().Panic != nil {
+		return nil
+	}
+	sch := s.schemas()
+	for _, e := range o.W.Ledger {
+		stages, ok := sch[e.Step]
+		if !ok {
+			continue
+		}
+		switch e.Kind {
+		case "stage-input":
+			stage, _ := e.Data.(string)
+			ss, ok := stages[stage]
+			if !ok || ss.in == nil {
+				continue
+			}
+			if _, err := ss.in.Unserialize(e.Data2); err != nil {
+				out = append(out, viol(s, "stage-input-violates-schema", e.Step+"."+stage, fmt.Sprintf("input %s handed to stage %s of step %s does not conform to the stage's input schema: %v", canonStr(e.Data2), stage, e.Step, err)))
+			}
+		case "notify-change", "notify-complete":
+			n, _ := asNotif(e.Data)
+			if n.OutputID == "" {
+				continue
+			}
+			ss, ok := stages[n.Prev]
+			if !ok {
+				out = append(out, viol(s, "output-of-undeclared-stage", e.Step+"."+n.Prev, "a step reported an output for a stage its lifecycle does not declare"))
+				continue
+			}
+			os, ok := ss.outs[n.OutputID]
+			if !ok {
+				out = append(out, viol(s, "undeclared-stage-output", e.Step+"."+n.Prev+"."+n.OutputID, "a step reported an output its lifecycle does not declare for that stage"))
+				continue
+			}
+			if p := plainData(n.Output, "$"); p != "" {
+				out = append(out, viol(s, "stage-output-not-serialised", e.Step+"."+n.Prev+"."+n.OutputID, fmt.Sprintf("output %s.%s of step %s is made available to expressions in non-serialised form: %s", n.Prev, n.OutputID, e.Step, p)))
+				continue
+			}
+			if _, err := os.Unserialize(n.Output); err != nil {
+				out = append(out, viol(s, "stage-output-violates-schema", e.Step+"."+n.Prev+"."+n.OutputID, fmt.Sprintf("output %s.%s = %s of step %s does not conform to its declared schema: %v", n.Prev, n.OutputID, canonStr(n.Output), e.Step, short(err.Error(), 300))))
+			}
+		}
+	}
+	if o.Returned {
+		if o.Err != nil && strings.Contains(o.Err.Error(), "bug:") {
+			out = append(out, viol(s, "internal-bug-error", errBugKey(o.Err), "the run ended with an internal consistency error: "+short(o.Err.Error(), 400)))
+		}
+		if o.Err == nil {
+			pw, _ := s.prepared()
+			if os, ok := pw.OutputSchema()[o.ID]; ok {
+				if _, err := os.Unserialize(o.Data); err != nil {
+					out = append(out, viol(s, "workflow-output-violates-schema", o.ID, fmt.Sprintf("returned output %s = %s does not conform to the workflow's output schema: %v", o.ID, canonStr(o.Data), err)))
+				}
+			}
+		}
+	}
+	return out
+}
+
+var bugObjRe = regexp.MustCompile(`for object ([A-Za-z0-9_]+)|Invalid parameter '([A-Za-z0-9_]+)'`)
+
+func errBugKey(err error) string {
+	s := err.Error()
+	if m := bugObjRe.FindStringSubmatch(s); m != nil {
+		defer func(obj string) {}(m[1])
+		return errBugKey0(s) + "/" + m[1] + m[2]
+	}
+	return errBugKey0(s)
+}
+
+func errBugKey0(s string) string {
+	if i := strings.Index(s, "bug:"); i >= 0 {
+		s = s[i:]
+	}
+	s = digitsRe.ReplaceAllString(s, "#")
+	if j := strings.Index(s, "("); j > 0 {
+		s = s[:j]
+	}
+	return strings.TrimSpace(short(s, 70))
 }
